@@ -6,7 +6,7 @@ From Coq Require Import NArith ZArith List Bool Permutation.
 From ZV.Gen Require Import Gen_Train.
 From ZV.Train Require Import CoverParams ZdictModel BestModel CoverProofs ZdictProofs BestProofs.
 From ZV.Train Require Import SegmentModel SegmentProofs GroupModel GroupProofs.
-From ZV.Train Require Import LimitsModel LimitsProofs MapModel MapProofs.
+From ZV.Train Require Import LimitsModel LimitsProofs MapModel MapProofs MapProofs2.
 Import ListNotations.
 Local Open Scope N_scope.
 
@@ -503,6 +503,13 @@ Theorem cover_map_agrees_bounded_4slots : forall ops,
   agree_run univ2 3 (cmap_clear 2, []) ops = true.
 Proof. exact cover_map_agrees_2. Qed.
 Print Assumptions cover_map_agrees_bounded_4slots.
+
+(* third universe: homes 0, 1, 0, 2, 0 on 8 slots (consecutive homes: a deletion moves entries over different distances) *)
+Theorem cover_map_agrees_bounded_consecutive_homes : forall ops,
+  (length ops <= 5)%nat -> (forall o, In o ops -> In o (all_ops univ3b)) ->
+  agree_run univ3b 7 (cmap_clear 3, []) ops = true.
+Proof. exact cover_map_agrees_3b. Qed.
+Print Assumptions cover_map_agrees_bounded_consecutive_homes.
 
 Theorem cover_map_full_never_ends :
   cmap_run (cmap_clear 2) [OpAdd 3; OpAdd 8; OpAdd 11; OpAdd 0; OpAdd 4] = None.
